@@ -304,6 +304,238 @@ pub fn gen_tls13_server_ext(t: &mut Tape) -> Vec<u8> {
     e.buf
 }
 
+/// an SSLv2-compatible ClientHello (RFC 5246 appendix E.2): 2-byte record header with the top bit set and a 15-bit length, msg_type 1,
+/// version, three u16 lengths, cipher specs of 3 bytes each, session id, challenge. The crate does not decode this format; the
+/// bytes are an input like any other - a consistent hello, one whose cipher-spec length is not a multiple of 3, one whose inner
+/// lengths add up to more than the record length, or one cut short. Returns the bytes and the record's declared total length.
+pub fn gen_sslv2_hello(t: &mut Tape) -> (Vec<u8>, usize) {
+    let nspecs = t.below(6);
+    let mut specs: Vec<u8> = Vec::new();
+    for _ in 0..nspecs {
+        let c = gen_cipher_id(t);
+        specs.extend_from_slice(&[if t.chance(200) { 0 } else { t.pick(&[1u8, 7, 6]) }, (c >> 8) as u8, c as u8]);
+    }
+    let shape = t.weighted(&[6, 2, 2, 1]);
+    if shape == 1 {
+        // a trailing partial spec (1 or 2 bytes), starting with 0x00 like a TLS suite
+        specs.push(0);
+        if t.bool() {
+            specs.push(t.u8());
+        }
+    }
+    let sid = if t.chance(60) { t.bytes(16) } else { vec![] };
+    let chl = t.pick(&[16usize, 16, 32, 0, 1]);
+    let challenge = t.bytes(chl);
+    let mut body = Enc::new();
+    body.u8(1);
+    body.u16(t.pick(&[0x0301u16, 0x0303, 0x0300, 0x0002]));
+    body.u16(specs.len() as u16);
+    body.u16(sid.len() as u16);
+    let mut ch_len = challenge.len();
+    if shape == 2 {
+        // the challenge length announces more than the record holds
+        ch_len += 1 + t.below(40);
+    }
+    body.u16(ch_len as u16);
+    body.bytes(&specs);
+    body.bytes(&sid);
+    body.bytes(&challenge);
+    let reclen = body.buf.len();
+    let mut out = vec![0x80 | (reclen >> 8) as u8, reclen as u8];
+    out.extend(body.buf);
+    if shape == 3 && out.len() > 3 {
+        let c = 2 + t.below(out.len() - 2);
+        out.truncate(c);
+    }
+    (out, 2 + reclen)
+}
+
+/// named groups real peers offer, incl. the post-quantum hybrids and a GREASE value
+pub const COMMON_GROUPS: [u16; 14] = [0x001d, 0x0017, 0x0018, 0x0019, 0x001e, 0x0100, 0x0101, 0x11eb, 0x11ec, 0x11ed, 0x6399, 0x639a, 0x0a0a, 0x001c];
+
+/// size of a key share of that group as a conforming client sends it
+pub fn natural_share_len(g: u16) -> Option<usize> {
+    Some(match g {
+        0x001d => 32,
+        0x0017 => 65,
+        0x0018 => 97,
+        0x0019 => 133,
+        0x001e => 56,
+        0x001c => 129,
+        0x0100 => 256,
+        0x0101 => 384,
+        0x11eb => 65 + 1184,
+        0x11ec => 1216,
+        0x11ed => 97 + 1568,
+        0x6399 => 32 + 1184,
+        0x639a => 65 + 1184,
+        _ => return None,
+    })
+}
+
+fn gen_key_share_entry(t: &mut Tape, budget: usize) -> (u16, Vec<u8>) {
+    let g = if t.chance(190) { COMMON_GROUPS[t.below(COMMON_GROUPS.len())] } else { t.u16b() };
+    let nat = natural_share_len(g).unwrap_or(32);
+    let n = match t.below(8) {
+        0 | 1 | 2 | 3 if nat + 8 <= budget => nat,
+        4 => 0,
+        5 => 1 + t.below(8),
+        6 => nat.saturating_sub(1 + t.below(3)).min(budget.saturating_sub(8)),
+        _ => t.below(budget.saturating_sub(8).min(90) + 1),
+    };
+    let mut d = t.bytes(n);
+    if matches!(g, 0x17 | 0x18 | 0x19 | 0x11eb | 0x11ed | 0x639a) && !d.is_empty() && t.chance(220) {
+        d[0] = 4;
+    }
+    (g, d)
+}
+
+/// content of a key_share extension in the forms of RFC 8446 4.2.8: the ClientHello list (0..4 entries, now and then a group
+/// offered twice - next to each other or apart), one ServerHello entry, the 2-byte HelloRetryRequest form; sizes as the group
+/// prescribes, or empty / short / one byte off
+pub fn gen_key_share_content(t: &mut Tape, budget: usize) -> Vec<u8> {
+    let mut e = Enc::new();
+    match t.weighted(&[5, 3, 1]) {
+        0 => {
+            let n = t.below(5);
+            let mut entries: Vec<(u16, Vec<u8>)> = Vec::new();
+            let mut left = budget.saturating_sub(2);
+            for _ in 0..n {
+                let x = gen_key_share_entry(t, left);
+                if x.1.len() + 4 > left {
+                    break;
+                }
+                left -= x.1.len() + 4;
+                entries.push(x);
+            }
+            if entries.len() >= 1 && t.chance(70) {
+                // the same group once more: at the end (apart from the first when there are others between) or right after it
+                let x = if t.bool() { entries[0].clone() } else { (entries[0].0, t.bytes(entries[0].1.len().min(left.saturating_sub(4)))) };
+                if x.1.len() + 4 <= left {
+                    if t.bool() {
+                        entries.push(x);
+                    } else {
+                        entries.insert(1, x);
+                    }
+                }
+            }
+            let mut inner = Enc::new();
+            for (g, d) in &entries {
+                inner.u16(*g);
+                inner.vec(2, "ks.entry", d);
+            }
+            e.vec(2, "ks.list", &inner.buf);
+        }
+        1 => {
+            let (g, d) = gen_key_share_entry(t, budget);
+            e.u16(g);
+            e.vec(2, "ks.entry", &d);
+        }
+        _ => e.u16(COMMON_GROUPS[t.below(COMMON_GROUPS.len())]),
+    }
+    e.buf
+}
+
+/// content of a pre_shared_key extension: OfferedPsks (identities with obfuscated age, binders of 32 / 48 / 64 or other sizes,
+/// counts equal or not) or the 2-byte selected identity of a ServerHello
+pub fn gen_psk_content(t: &mut Tape, budget: usize) -> Vec<u8> {
+    let mut e = Enc::new();
+    if t.chance(50) {
+        e.u16(t.u16b());
+        return e.buf;
+    }
+    let n = 1 + t.below(3);
+    let mut ids = Enc::new();
+    for _ in 0..n {
+        let l = t.pick(&[1usize, 16, 32, 48, 100]).min(budget / 4);
+        ids.vec(2, "psk.id", &t.bytes(l.max(1)));
+        ids.u32(t.u32b());
+    }
+    let nb = if t.chance(30) { t.below(4) } else { n };
+    let mut binders = Enc::new();
+    for _ in 0..nb {
+        let l = t.pick(&[32usize, 32, 48, 48, 64, 33, 31, 255]);
+        binders.vec(1, "psk.binder", &t.bytes(l));
+    }
+    e.vec(2, "psk.ids", &ids.buf);
+    e.vec(2, "psk.binders", &binders.buf);
+    e.buf
+}
+
+/// body of a ClientKeyExchange in the shapes the key-exchange methods give it: one u16-prefixed vector that fills the body (RSA
+/// EncryptedPreMasterSecret, DH Yc, PSK identity), a u16-prefixed vector followed by more (DHE_PSK / RSA_PSK), an EC point with its
+/// one-byte length, empty, or arbitrary bytes
+pub fn gen_cke_body(t: &mut Tape, budget: usize) -> Vec<u8> {
+    let mut e = Enc::new();
+    match t.weighted(&[3, 3, 2, 3, 1]) {
+        0 => return t.blob(budget),
+        1 => {
+            let n = t.pick(&[1usize, 2, 15, 48, 128, 256, 512]).min(budget.saturating_sub(2)).max(1);
+            e.vec(2, "cke.vec", &t.bytes(n));
+        }
+        2 => {
+            let n = t.pick(&[1usize, 2, 15, 32]).min(budget / 3).max(1);
+            e.vec(2, "cke.identity", &t.bytes(n));
+            if t.bool() {
+                let m = t.pick(&[2usize, 48, 128, 256]).min(budget / 3).max(1);
+                e.vec(2, "cke.second", &t.bytes(m));
+            } else {
+                e.bytes(&t.small_blob(40));
+            }
+        }
+        3 => {
+            let n = t.pick(&[65usize, 65, 97, 133, 32, 56]).min(budget.saturating_sub(1)).max(1);
+            let mut d = t.bytes(n);
+            if n != 32 && n != 56 {
+                d[0] = 4;
+            }
+            e.vec(1, "cke.point", &d);
+        }
+        _ => {}
+    }
+    e.buf
+}
+
+/// an ECDSA signature value as it travels inside DigitallySigned: DER SEQUENCE of two INTEGERs, with the values a verifier must
+/// look at twice (zero, one, leading zero octet, 32 / 33 octets)
+pub fn gen_der_ecdsa_sig(t: &mut Tape) -> Vec<u8> {
+    let mut int = |t: &mut Tape| -> Vec<u8> {
+        let v = match t.below(6) {
+            0 => vec![0u8],
+            1 => vec![1u8],
+            2 => t.bytes(32),
+            3 => {
+                let mut x = vec![0u8];
+                x.extend(t.bytes(32));
+                x
+            }
+            4 => {
+                let mut x = t.bytes(30);
+                x.extend_from_slice(&[0x02, 0x01, 0x00]);
+                x
+            }
+            _ => t.small_blob(33),
+        };
+        let mut o = vec![0x02, v.len() as u8];
+        o.extend(v);
+        o
+    };
+    let (r, s2) = (int(t), int(t));
+    let mut o = vec![0x30, (r.len() + s2.len()) as u8];
+    o.extend(r);
+    o.extend(s2);
+    o
+}
+
+/// a (hash, signature) algorithm pair: mostly registered ones
+pub fn gen_sig_alg(t: &mut Tape) -> (u8, u8) {
+    if t.chance(150) {
+        (t.pick(&[1u8, 2, 3, 4, 5, 6, 8, 0]), t.pick(&[1u8, 2, 3, 3, 3, 7, 8, 0]))
+    } else {
+        (t.u8(), t.u8())
+    }
+}
+
 /// RFC 8446 4.1.3: the ServerHello.random that marks a HelloRetryRequest (SHA-256 of "HelloRetryRequest")
 pub const HRR_RANDOM: [u8; 32] = [
     0xcf, 0x21, 0xad, 0x74, 0xe5, 0x9a, 0x61, 0x11, 0xbe, 0x1d, 0x8c, 0x02, 0x1e, 0x65, 0xb8, 0x91, 0xc2, 0xa2, 0x11, 0x16, 0x7a, 0xbb, 0x8c, 0x5e, 0x07, 0x9e, 0x09, 0xe2, 0xc8, 0xa8, 0x33, 0x9c,
@@ -336,7 +568,7 @@ pub fn gen_hs_kind(t: &mut Tape, kind: usize, budget: usize) -> MHs {
     match kind {
         0 => MHs::HelloRequest,
         1 => {
-            let version = t.u16b();
+            let version = if t.bool() { gen_version(t) } else { t.u16b() };
             let random = gen_random(t);
             let sid = gen_sid(t);
             let ciphers = gen_cipher_list(t, (b / 2).min(32767));
@@ -367,9 +599,49 @@ pub fn gen_hs_kind(t: &mut Tape, kind: usize, budget: usize) -> MHs {
             MHs::ServerHello { version, random, sid, cipher, comp, ext }
         }
         3 => MHs::ServerHelloD18 { version: 0x7f12, random: gen_random(t), cipher: gen_cipher_id(t), ext: gen_opt_ext(t, b) },
-        4 => MHs::NewSessionTicket { lifetime: t.u32b(), ticket: t.blob(b) },
+        4 => {
+            // what follows the lifetime is opaque to the parser; on the wire it is `opaque ticket<0..2^16-1>` (RFC 5077) or the TLS 1.3
+            // form (age_add, nonce, ticket, extensions)
+            let lifetime = t.u32b();
+            let ticket = match t.weighted(&[3, 4, 2]) {
+                0 => t.blob(b),
+                1 => {
+                    let mut e = Enc::new();
+                    e.vec(2, "nst.ticket", &t.blob(b.min(65535).saturating_sub(2)));
+                    e.buf
+                }
+                _ => {
+                    let mut e = Enc::new();
+                    e.u32(t.u32b());
+                    e.vec(1, "nst.nonce", &t.small_blob(8));
+                    e.vec(2, "nst.ticket", &t.small_blob(b.min(200)));
+                    e.vec(2, "nst.ext", &if t.bool() { vec![] } else { vec![0, 42, 0, 4, 0, 0, 0x40, 0] });
+                    e.buf
+                }
+            };
+            MHs::NewSessionTicket { lifetime, ticket }
+        }
         5 => MHs::EndOfEarlyData,
-        6 => MHs::HelloRetryRequest { version: t.u16b(), cipher: gen_cipher_id(t), ext: gen_opt_ext(t, b) },
+        6 => {
+            let version = if t.bool() { t.pick(&[0x7f12u16, 0x7f12, 0x0304, 0x7f1c, 0x7f17, 0x0303]) } else { t.u16b() };
+            // the draft-18 message carries key_share (code point 40, a bare group), cookie, supported_versions
+            let ext = if t.chance(100) && b >= 40 {
+                let mut e = Enc::new();
+                for _ in 0..1 + t.below(3) {
+                    let g = COMMON_GROUPS[t.below(COMMON_GROUPS.len())];
+                    match t.below(5) {
+                        0 | 1 => MExt::KeyShareOld(vec![(g >> 8) as u8, g as u8]).encode(&mut e),
+                        2 => MExt::KeyShare(vec![(g >> 8) as u8, g as u8]).encode(&mut e),
+                        3 => MExt::Cookie({ let mut c = Enc::new(); c.vec(2, "cookie", &t.small_blob(20)); c.buf }).encode(&mut e),
+                        _ => MExt::SupportedVersions(vec![0x7f12], true).encode(&mut e),
+                    }
+                }
+                Some(e.buf)
+            } else {
+                gen_opt_ext(t, b)
+            };
+            MHs::HelloRetryRequest { version, cipher: gen_cipher_id(t), ext }
+        }
         7 => {
             let n = t.count((b / 3).min(20000));
             let mut chain = Vec::new();
@@ -386,7 +658,17 @@ pub fn gen_hs_kind(t: &mut Tape, kind: usize, budget: usize) -> MHs {
         9 => {
             let nt = t.small(255);
             let types = t.bytes(nt);
-            let sigalgs = if t.bool() { Some(gen_u16_list(t, 300.min(b / 2))) } else { None };
+            let mut sigalgs = if t.bool() { Some(gen_u16_list(t, 300.min(b / 2))) } else { None };
+            if t.chance(24) {
+                // a list whose byte image is a well-formed extension block holding signature_algorithms (the TLS 1.3 form of this
+                // message is request_context + extensions: the TLS 1.2 list must not be re-read that way)
+                let mut e = Enc::new();
+                if t.bool() {
+                    MExt::SupportedVersions(vec![0x0304], true).encode(&mut e);
+                }
+                MExt::SignatureAlgorithms((0..1 + t.below(3)).map(|_| t.pick(&[0x0403u16, 0x0804, 0x0401, 0x0503])).collect()).encode(&mut e);
+                sigalgs = Some(e.buf.chunks(2).map(|c| (c[0] as u16) << 8 | c[1] as u16).collect());
+            }
             let n = t.count((b / 4).min(5000));
             let mut cas = Vec::new();
             let mut left = b;
@@ -399,7 +681,7 @@ pub fn gen_hs_kind(t: &mut Tape, kind: usize, budget: usize) -> MHs {
         }
         10 => MHs::ServerDone(if t.chance(200) { vec![] } else { t.blob(b) }),
         11 => MHs::CertificateVerify(t.blob(b)),
-        12 => MHs::ClientKeyExchange(t.blob(b)),
+        12 => MHs::ClientKeyExchange(gen_cke_body(t, b)),
         13 => MHs::Finished(t.blob(b.min(4096))),
         14 => MHs::CertificateStatus { ty: t.u8(), blob: t.blob(b) },
         15 => MHs::NextProtocol { proto: t.blob(255), padding: t.blob(255) },
@@ -644,8 +926,8 @@ pub fn gen_ext_known(t: &mut Tape, idx: usize, budget: usize) -> MExt {
         23 => MExt::ExtendedMasterSecret,
         28 => MExt::RecordSizeLimit(t.u16b()),
         35 => MExt::SessionTicket(t.blob(b.min(600))),
-        40 => MExt::KeyShareOld(t.blob(b.min(300))),
-        41 => MExt::PreSharedKey(t.blob(b.min(300))),
+        40 => MExt::KeyShareOld(if t.chance(90) { let g = COMMON_GROUPS[t.below(COMMON_GROUPS.len())]; vec![(g >> 8) as u8, g as u8] } else if t.chance(90) { gen_key_share_content(t, b.min(300)) } else { t.blob(b.min(300)) }),
+        41 => MExt::PreSharedKey(if t.chance(170) { gen_psk_content(t, b.min(400)) } else { t.blob(b.min(300)) }),
         42 => MExt::EarlyData(if t.bool() { None } else { Some(t.u32b()) }),
         43 => {
             if t.chance(90) {
@@ -664,7 +946,10 @@ pub fn gen_ext_known(t: &mut Tape, idx: usize, budget: usize) -> MExt {
             MExt::OidFilters((0..n).map(|_| (t.small_blob(b.min(60) / 2), t.small_blob(b.min(200) / 2))).collect())
         }
         49 => MExt::PostHandshakeAuth,
-        51 => MExt::KeyShare(t.blob(b.min(300))),
+        51 => {
+            let cap = if t.chance(40) { 2600 } else { 300 };
+            MExt::KeyShare(if t.chance(180) { gen_key_share_content(t, b.min(cap)) } else { t.blob(b.min(300)) })
+        }
         13172 => MExt::NextProtocolNegotiation,
         0xff01 => MExt::RenegotiationInfo(t.small_blob(b.saturating_sub(1).min(255))),
         _ => MExt::Esni {
@@ -999,7 +1284,23 @@ pub fn gen_dtls_body(t: &mut Tape, budget: usize) -> (u8, MDtlsBody) {
             let ciphers = gen_cipher_list(t, (b / 4).min(2000));
             let nc = t.small(255);
             let comp = t.bytes(nc);
-            let ext = gen_opt_ext(t, b / 2);
+            let mut ext = gen_opt_ext(t, b / 2);
+            let mut cookie = cookie;
+            if t.chance(50) && b >= 80 {
+                // a DTLS 1.3 ClientHello (RFC 9147 5.3): legacy_cookie empty, supported_versions offering 0xfefc, the cookie in extension 44
+                if t.chance(200) {
+                    cookie = vec![];
+                }
+                let mut e = Enc::new();
+                MExt::SupportedVersions(if t.bool() { vec![0xfefc, 0xfefd] } else { vec![0xfefd, 0xfefc, 0xfeff] }, false).encode(&mut e);
+                if t.chance(200) {
+                    MExt::Cookie({ let mut c = Enc::new(); c.vec(2, "cookie", &t.small_blob(24)); c.buf }).encode(&mut e);
+                }
+                if t.bool() {
+                    MExt::EllipticCurves(vec![0x001d, 0x0017]).encode(&mut e);
+                }
+                ext = Some(e.buf);
+            }
             (1, MDtlsBody::ClientHello { version, random, sid, cookie, ciphers, comp, ext })
         }
         1 => {
@@ -1022,7 +1323,7 @@ pub fn gen_dtls_body(t: &mut Tape, budget: usize) -> (u8, MDtlsBody) {
             (11, MDtlsBody::Certificate { chain })
         }
         4 => (14, MDtlsBody::ServerDone(if t.chance(200) { vec![] } else { t.blob(b) })),
-        _ => (16, MDtlsBody::ClientKeyExchange(t.blob(b))),
+        _ => (16, MDtlsBody::ClientKeyExchange(gen_cke_body(t, b))),
     }
 }
 
@@ -1252,14 +1553,41 @@ pub fn gen_ecdh(t: &mut Tape) -> MEcdh {
 }
 
 pub fn gen_signed(t: &mut Tape, with_alg: bool) -> MSigned {
-    MSigned { alg: if with_alg { Some((t.u8(), t.u8())) } else { None }, data: t.blob(65535) }
+    MSigned { alg: if with_alg { Some(gen_sig_alg(t)) } else { None }, data: if t.chance(70) { gen_der_ecdsa_sig(t) } else { t.blob(65535) } }
 }
 
 pub fn gen_sct(t: &mut Tape, budget: usize) -> MSct {
     let b = budget.saturating_sub(47);
     let extensions = t.blob((b / 2).min(65535));
     let signature = t.blob((b - extensions.len()).min(65535));
-    MSct { version: if t.chance(128) { 0 } else { t.u8() }, id: t.bytes(32), timestamp: t.u64b(), extensions, hash: t.u8(), sign: t.u8(), alg_present: true, signature }
+    let mut extensions = extensions;
+    if t.chance(50) && b >= 60 {
+        // CT extensions as newer logs fill them: typed items (u8 type, u16 length, data), bare or behind a u16 total - opaque bytes all the same
+        let mut items = Enc::new();
+        for _ in 0..1 + t.below(3) {
+            items.u8(t.pick(&[0u8, 0, 1, 7]));
+            items.vec(2, "ctext.item", &if t.bool() { vec![0, 0, 0, 0x30, 0x39] } else { t.small_blob(8) });
+        }
+        extensions = if t.bool() {
+            items.buf
+        } else {
+            let mut e = Enc::new();
+            e.vec(2, "ctext.total", &items.buf);
+            e.buf
+        };
+    }
+    let mut id = t.bytes(32);
+    if t.chance(20) {
+        // a log id whose first octets read like an RFC 9162 (CT v2) TransItem: type 3 / 4, then a DER OID (length, 06, length - 2)
+        let l = 2 + t.below(30) as u8;
+        id[0] = t.pick(&[3u8, 4]);
+        id[1] = l;
+        id[2] = 6;
+        id[3] = l - 2;
+    }
+    let (hash, sign) = gen_sig_alg(t);
+    let signature = if t.chance(60) { gen_der_ecdsa_sig(t) } else { signature };
+    MSct { version: if t.chance(128) { 0 } else { t.u8() }, id, timestamp: t.u64b(), extensions, hash, sign, alg_present: true, signature }
 }
 
 pub fn gen_sct_list(t: &mut Tape) -> Vec<MSct> {
